@@ -428,25 +428,47 @@ def run(res, tier):
         for p_ in f.params:
             if f.ptype(p_).replace('const ', '').strip() not in ('unsigned int', 'uint32', 'muscle::uint32') or p_.get('d') is None:
                 continue
-            uses = [c for c in f.walk() if c.is_call() and (c.get('q') or '').endswith('::InternalizeIndex') and c.args() and A.strip_casts(c.args()[0]).get('d') == p_['d']
+            # a slot access through the logical index: InternalizeIndex(p), GetItemAtUnchecked(p), (*this)[p]
+            uses = [c for c in f.walk() if c.is_call() and re.search(r'Queue::(InternalizeIndex|GetItemAtUnchecked|operator\[\])$', c.get('q') or '')
+                    and any(A.strip_casts(a_).get('d') == p_['d'] for a_ in c.args())
                     and not any(a.is_call() and re.search(r'::(PrevIndex|NextIndex)$', a.get('q') or '') for a in c.ancestors())]     # (one past the end, stepped back: a size, not an index)
             if not uses:
                 continue
-            # only methods that decide validity themselves (they contain a test of the parameter against the item count or the last valid index)
-            tests = [x for x in f.walk() if x['k'] == 'BinaryOperator' and x.get('op') in ('<', '<=', '>', '>=') and any(y['k'] == 'DeclRefExpr' and y.get('d') == p_['d'] for y in x.walk())
-                     and any((y['k'] == 'MemberExpr' and y.get('n') == '_itemCount') or (y.is_call() and re.search(r'::(GetNumItems|GetLastValidIndex)$', y.get('q') or '')) for y in x.walk())]
-            if not tests:
+
+            def valid_atom(h_, cn, t, d_):
+                """the atom says that the variable d_ of h_ is a valid index: d_ < _itemCount / GetNumItems(), or IsIndexValid(d_)"""
+                for (l_, op_, r_) in A.rel_forms(cn, t):
+                    if l_['k'] == 'DeclRefExpr' and l_.get('d') == d_ and op_ == '<' and ((r_['k'] == 'MemberExpr' and r_.get('n') == '_itemCount') or (r_.is_call() and (r_.get('q') or '').endswith('::GetNumItems'))):
+                        return True
+                core, pol = A.bool_polarity(cn, t)
+                return bool(pol is True and core.is_call() and (core.get('q') or '').endswith('::IsIndexValid') and core.args() and A.strip_casts(core.args()[0]).get('d') == d_)
+            # only methods that decide validity themselves (they contain a test of the parameter against the item count or the last valid index), and the private helpers the rest of
+            # such a method was moved into (their call sites carry the test)
+            tests = [x for x in f.walk() if (x['k'] == 'BinaryOperator' and x.get('op') in ('<', '<=', '>', '>=') and any(y['k'] == 'DeclRefExpr' and y.get('d') == p_['d'] for y in x.walk())
+                                             and any((y['k'] == 'MemberExpr' and y.get('n') == '_itemCount') or (y.is_call() and re.search(r'::(GetNumItems|GetLastValidIndex)$', y.get('q') or '')) for y in x.walk()))
+                     or (x.is_call() and (x.get('q') or '').endswith('::IsIndexValid') and x.args() and A.strip_casts(x.args()[0]).get('d') == p_['d'])]
+            callers = [(h_, c_) for (h_, c_) in IP.call_sites_of(fx, f, r'^muscle::Queue::') if (inst + '::') in h_.name] if f.q.split('::')[-1].endswith('Aux') else []
+            if not tests and not callers:
                 continue
             n_bi += 1
             bad = None
+            pidx = [k_ for k_, q_ in enumerate(f.params) if q_.get('d') == p_['d']][0]
             for u in uses:
-                ok_u = False
-                for (cn, t) in G.atoms_at(f, u):
-                    for (l_, op_, r_) in A.rel_forms(cn, t):
-                        if l_['k'] == 'DeclRefExpr' and l_.get('d') == p_['d'] and op_ == '<' and ((r_['k'] == 'MemberExpr' and r_.get('n') == '_itemCount') or (r_.is_call() and (r_.get('q') or '').endswith('::GetNumItems'))):
-                            ok_u = True
+                ok_u = any(valid_atom(f, cn, t, p_['d']) for (cn, t) in G.atoms_at(f, u))
+                if not ok_u and callers:
+                    # every call site passes a variable that is known to be a valid index there
+                    ok_u = True
+                    for (h_, c_) in callers:
+                        args_ = c_.args()
+                        if c_['k'] == 'CXXOperatorCallExpr' and len(args_) == len(f.params) + 1:
+                            args_ = args_[1:]
+                        a_ = A.strip_casts(args_[pidx]) if pidx < len(args_) else None
+                        if a_ is None or a_['k'] != 'DeclRefExpr' or not any(valid_atom(h_, cn, t, a_.get('d')) for (cn, t) in G.atoms_at(h_, c_)):
+                            ok_u = False
                 if not ok_u:
                     bad = bad or u
+            if not tests:
+                tests = [u]
             res.ob('BAD-INDEX', f.where(bad) if bad is not None else f.where(uses[0]), '%s: InternalizeIndex(%s) only under %s < item count' % (f.q.split('::')[-1], p_.get('n'), p_.get('n')), bad is None,
                    function=f.q, key='BAD-INDEX|%s|%s' % (f.q.split('<')[0] + '::' + f.q.split('::')[-1], p_.get('n')),
                    message='%s converts `%s` into a slot without `%s < _itemCount` having been established (its own validity test is `%s`): on an empty Queue the operation is accepted, the item count '
